@@ -665,6 +665,100 @@ Proof.
   intros. rewrite map_length, seq_length. rewrite <- (map_id (seq 0 n)) at 1. apply combine_map.
 Qed.
 
+(* ---- the aligned grid of a subquery -------------------------------------------------------- *)
+
+Lemma sub_start_spec : forall p off range s, 0 < s ->
+  exists q, sub_start p off range s = s * q /\
+            p - off - range < s * q <= p - off - range + s.
+Proof.
+  intros p off range s Hs. unfold sub_start. set (x := p - off - range).
+  pose proof (Z.quot_rem' x s) as Hqr.
+  assert (Hr : - s < Z.rem x s < s).
+  { destruct (Z_le_gt_dec 0 x) as [Hx|Hx].
+    - pose proof (Z.rem_bound_pos x s Hx Hs). lia.
+    - assert (Hx' : x <= 0) by lia. pose proof (Z.rem_bound_pos_neg x s Hs Hx'). lia. }
+  destruct (s * (x ÷ s) <=? x) eqn:E.
+  - exists (x ÷ s + 1). lia.
+  - exists (x ÷ s). lia.
+Qed.
+
+Lemma in_grid : forall c s n u, In u (grid c s n) <-> exists j, (j < n)%nat /\ u = c + Z.of_nat j * s.
+Proof.
+  intros. unfold grid. rewrite in_map_iff. split.
+  - intros (j & <- & Hj). apply in_seq in Hj. exists j. split; auto. lia.
+  - intros (j & Hj & ->). exists j. split; auto. apply in_seq. lia.
+Qed.
+
+Lemma grid_sorted_from : forall c s n a, 0 < s ->
+  StronglySorted Z.lt (map (fun k => c + Z.of_nat k * s) (seq a n)).
+Proof.
+  intros c s n. induction n as [|n IH]; intros a Hs; simpl; constructor; auto.
+  apply Forall_forall. intros u Hu. apply in_map_iff in Hu. destruct Hu as (j & <- & Hj).
+  apply in_seq in Hj. nia.
+Qed.
+
+Lemma grid_sorted : forall c s n, 0 < s -> StronglySorted Z.lt (grid c s n).
+Proof. intros. apply grid_sorted_from; auto. Qed.
+
+Lemma sortedZ_ext : forall l1 l2 : list Z, StronglySorted Z.lt l1 -> StronglySorted Z.lt l2 ->
+  (forall u, In u l1 <-> In u l2) -> l1 = l2.
+Proof.
+  induction l1 as [|a l1 IH]; intros l2 H1 H2 H.
+  - destruct l2 as [|b l2]; auto. exfalso. apply (H b). left; auto.
+  - destruct l2 as [|b l2]; [exfalso; apply (H a); left; auto|].
+    inversion H1 as [|? ? Hs1 Hf1]; subst. inversion H2 as [|? ? Hs2 Hf2]; subst.
+    rewrite Forall_forall in Hf1, Hf2.
+    assert (a = b).
+    { destruct (proj1 (H a) (or_introl eq_refl)) as [->|Ha]; auto.
+      destruct (proj2 (H b) (or_introl eq_refl)) as [->|Hb]; auto.
+      specialize (Hf1 b Hb). specialize (Hf2 a Ha). lia. }
+    subst b. f_equal. apply IH; auto.
+    intros u. split; intros Hu.
+    + destruct (proj1 (H u) (or_intror Hu)) as [->|]; auto. specialize (Hf1 u Hu). lia.
+    + destruct (proj2 (H u) (or_intror Hu)) as [->|]; auto. specialize (Hf2 u Hu). lia.
+Qed.
+
+Lemma sortedZ_filter : forall (q : Z -> bool) l, StronglySorted Z.lt l -> StronglySorted Z.lt (filter q l).
+Proof.
+  induction l as [|x l IH]; simpl; intros H; auto. inversion H as [|? ? Hs Hf]; subst.
+  destruct (q x); auto. constructor; auto.
+  rewrite Forall_forall in *. intros y Hy. apply filter_In in Hy. apply Hf. tauto.
+Qed.
+
+Lemma num_steps_spec : forall c b s j, 0 < s -> (Z.of_nat j < Z.of_nat (num_steps c b s) <-> c + Z.of_nat j * s <= b).
+Proof.
+  intros c b s j Hs. unfold num_steps. destruct (b <? c) eqn:E.
+  - simpl. split; [lia|]. intros. nia.
+  - assert (Hb : 0 <= b - c) by lia.
+    pose proof (Z.quot_rem' (b - c) s). pose proof (Z.rem_bound_pos (b - c) s Hb Hs).
+    assert (0 <= (b - c) ÷ s) by (apply Z.quot_pos; lia).
+    rewrite Z2Nat.id by lia. split; intros; nia.
+Qed.
+
+(* the points of a grid starting at the first multiple of s after x0 and reaching up to b0, that
+   fall into a window (a, b] inside (x0, b0], are the points of the grid built for that window *)
+Lemma grid_window : forall s x0 b0 a b c0 ck,
+  0 < s -> x0 <= a -> b <= b0 ->
+  (exists q, c0 = s * q /\ x0 < s * q <= x0 + s) ->
+  (exists q, ck = s * q /\ a < s * q <= a + s) ->
+  filter (fun u => (a <? u) && (u <=? b)) (grid c0 s (num_steps c0 b0 s)) =
+  filter (fun u => (a <? u) && (u <=? b)) (grid ck s (num_steps ck b s)).
+Proof.
+  intros s x0 b0 a b c0 ck Hs Hx Hb (q0 & -> & Hq0) (qk & -> & Hqk).
+  apply sortedZ_ext; try (apply sortedZ_filter; apply grid_sorted; auto).
+  intros u. rewrite !filter_In, !in_grid. split.
+  - intros [(j & Hj & ->) Hw].
+    assert (Hge : qk <= q0 + Z.of_nat j) by nia.
+    split; auto. exists (Z.to_nat (q0 + Z.of_nat j - qk)). split.
+    + apply Nat2Z.inj_lt. apply num_steps_spec; auto. rewrite Z2Nat.id by lia. nia.
+    + rewrite Z2Nat.id by lia. nia.
+  - intros [(j & Hj & ->) Hw].
+    assert (Hge : q0 <= qk + Z.of_nat j) by nia.
+    split; auto. exists (Z.to_nat (qk + Z.of_nat j - q0)). split.
+    + apply Nat2Z.inj_lt. apply num_steps_spec; auto. rewrite Z2Nat.id by lia. nia.
+    + rewrite Z2Nat.id by lia. nia.
+Qed.
+
 Section ExprProofs.
 Variables (Sel F G L : Type).
 Variable matches : Sel -> L -> bool.
@@ -708,12 +802,13 @@ Proof.
   destruct (keep l); simpl; auto. rewrite IH. destruct (nth k (run s) None); reflexivity.
 Qed.
 
-(* source expressions covered by the theorem: no subqueries, positive ranges *)
+(* source expressions covered by the theorem: positive ranges and subquery steps, an @-modified
+   range selector only under an at-modifier-safe function *)
 Fixpoint okexpr (e : expr) : Prop :=
   match e with
   | EVec _ _ _ _ _ _ => True
   | ECall _ _ _ f _ range _ at_ => 0 < range /\ (at_ <> None -> safeF f = true)
-  | ESub _ _ _ _ _ _ _ _ => False
+  | ESub _ _ _ _ e1 range sstep _ => 0 < range /\ 0 < sstep /\ okexpr e1
   | EP0 _ _ _ _ => True
   | EP1 _ _ _ _ e1 => okexpr e1
   | EP2 _ _ _ _ e1 e2 => okexpr e1 /\ okexpr e2
@@ -748,10 +843,59 @@ Lemma range_loop_first : forall range offset interval sr refetch ts st fl,
   range_loop range offset interval sr true true 1 ts st fl.
 Proof. intros. simpl. reflexivity. Qed.
 
+
+Lemma assemble_map : forall {A} (val : A -> Z) (U : list L) (run : L -> list (option A)) k,
+  assemble L val (map (fun l => (l, run l)) U) k =
+  filter_map (fun l => option_map (fun x => (l, val x)) (nth k (run l) None)) U.
+Proof.
+  intros A val U run k. unfold assemble. induction U as [|l U IH]; simpl; auto.
+  rewrite IH. destruct (nth k (run l) None); reflexivity.
+Qed.
+
+Lemma points_of_map : forall l (Fv : Z -> list (L * Z)) us,
+  points_of L l_eqb l us (map Fv us) =
+  filter_map (fun u => option_map (mkS u) (lookup L l_eqb l (Fv u))) us.
+Proof.
+  intros l Fv us. unfold points_of. induction us as [|u us IH]; simpl; auto.
+  rewrite IH. reflexivity.
+Qed.
+
+Lemma window_filter_map : forall (g : Z -> option sample) us a b,
+  window_spec (filter_map g us) a b =
+  filter_map (fun u => match g u with
+                       | Some p => if in_window a b p then Some p else None
+                       | None => None end) us.
+Proof.
+  intros g us a b. unfold window_spec. induction us as [|u us IH]; simpl; auto.
+  destruct (g u) as [p|]; simpl; auto. destruct (in_window a b p); simpl; rewrite IH; reflexivity.
+Qed.
+
+Lemma filter_map_filter : forall {B} (h : Z -> option B) (q : Z -> bool) us,
+  (forall u, q u = false -> h u = None) -> filter_map h us = filter_map h (filter q us).
+Proof.
+  intros B h q us H. induction us as [|u us IH]; simpl; auto.
+  destruct (q u) eqn:E; simpl; rewrite IH; auto. rewrite (H u E). reflexivity.
+Qed.
+
+Lemma sortedT_filter_map : forall (g : Z -> option sample) us,
+  StronglySorted Z.lt us -> (forall u p, g u = Some p -> sT p = u) -> sortedT (filter_map g us).
+Proof.
+  intros g us Hs Hg. induction us as [|u us IH]; simpl; [constructor|].
+  inversion Hs as [|? ? Hs' Hf]; subst. destruct (g u) as [p|] eqn:E; [|apply IH; auto].
+  constructor; [apply IH; auto|]. rewrite Forall_forall in *. intros y Hy.
+  assert (Hin : exists u', In u' us /\ g u' = Some y).
+  { clear -Hy. induction us as [|v us IH]; simpl in Hy; [destruct Hy|].
+    destruct (g v) as [pv|] eqn:Ev.
+    - destruct Hy as [<-|Hy]; [exists v; split; auto; left; auto|].
+      destruct (IH Hy) as (u' & ? & ?). exists u'. split; auto. right; auto.
+    - destruct (IH Hy) as (u' & ? & ?). exists u'. split; auto. right; auto. }
+  destruct Hin as (u' & Hu' & Hgu'). rewrite (Hg u p E), (Hg u' y Hgu'). apply Hf; auto.
+Qed.
+
 Lemma prep_spec : forall d, wf_data d -> forall e, okexpr e ->
   forall e' i w, prep e = (e', i, w) -> prep_ok d e e' i w.
 Proof.
-  intros d Hd. induction e as [m off at_|f m range off at_| | g | g e1 IH1 | g e1 IH1 e2 IH2 | ];
+  intros d Hd. induction e as [m off at_|f m range off at_|f e1 IH1 range sstep off| g | g e1 IH1 | g e1 IH1 e2 IH2 | ];
     intros Hok e' i w Hprep; simpl in Hok; try contradiction.
   - (* vector selector *)
     simpl in Hprep. inversion Hprep; subst; clear Hprep. split; [reflexivity|]. split.
@@ -798,6 +942,52 @@ Proof.
         destruct Hn as [Hn|Hn]; [discriminate|]. subst n. assert (k = 0%nat) by lia. subst k. lia. }
       rewrite Heqt.
       match goal with |- context [apply_wf ?a ?b ?c ?d ?e ?f ?g] => destruct (apply_wf a b c d e f g) end; reflexivity.
+  - (* range function over a subquery *)
+    destruct Hok as (Hrange & Hsstep & Hok1).
+    simpl in Hprep. destruct (prep e1) as [[e1' i1] w1] eqn:E1.
+    specialize (IH1 Hok1 e1' i1 w1 eq_refl).
+    inversion Hprep; subst; clear Hprep. split; [reflexivity|]. split; [discriminate|].
+    intros start interval n Hi _. cbn [PromqlRange.eval_range PromqlRange.eval_instant].
+    set (cstart := sub_start start off range sstep).
+    set (cn := num_steps cstart (start + Z.of_nat (Init.Nat.pred n) * interval - off) sstep).
+    set (Fv := eval_instant d e1).
+    assert (Hvs : eval_range d (if i1 then EStepInv Sel F G e1' else e1') cstart sstep cn =
+                  map Fv (grid cstart sstep cn)).
+    { assert (Hw1 : w1 = i1) by (destruct IH1; auto). rewrite <- Hw1.
+      rewrite (wrapped_spec d e1 e1' i1 w1 IH1 cstart sstep cn Hsstep).
+      unfold grid. rewrite map_map. reflexivity. }
+    rewrite Hvs.
+    apply map_ext_in. intros k Hk. apply in_seq in Hk.
+    rewrite (assemble_map (fun x => x) universe). apply filter_map_ext_in. intros l _.
+    assert (Htag : forall u p, option_map (mkS u) (lookup L l_eqb l (Fv u)) = Some p -> sT p = u).
+    { intros u p H. destruct (lookup L l_eqb l (Fv u)); inversion H; reflexivity. }
+    rewrite window_incremental; auto.
+    2:{ rewrite points_of_map. apply sortedT_filter_map; auto. apply grid_sorted; auto. }
+    unfold zip_wf. rewrite combine_seq_map, map_map, nth_map_seq by lia. cbv zeta. fold (tk start interval k).
+    assert (Hwin : window_spec (points_of L l_eqb l (grid cstart sstep cn) (map Fv (grid cstart sstep cn)))
+                     (tk start interval k - off - range) (tk start interval k - off) =
+                   window_spec (points_of L l_eqb l
+                      (grid (sub_start (tk start interval k) off range sstep) sstep
+                         (num_steps (sub_start (tk start interval k) off range sstep) (tk start interval k - off) sstep))
+                      (map Fv (grid (sub_start (tk start interval k) off range sstep) sstep
+                         (num_steps (sub_start (tk start interval k) off range sstep) (tk start interval k - off) sstep))))
+                     (tk start interval k - off - range) (tk start interval k - off)).
+    { rewrite !points_of_map, !window_filter_map.
+      set (q := fun u => (tk start interval k - off - range <? u) && (u <=? tk start interval k - off)).
+      rewrite (filter_map_filter _ q (grid cstart sstep cn)).
+      2:{ intros u Hq. destruct (lookup L l_eqb l (Fv u)); simpl; auto.
+          unfold in_window, q in *. simpl. rewrite Hq. reflexivity. }
+      rewrite (filter_map_filter _ q (grid (sub_start (tk start interval k) off range sstep) sstep _)).
+      2:{ intros u Hq. destruct (lookup L l_eqb l (Fv u)); simpl; auto.
+          unfold in_window, q in *. simpl. rewrite Hq. reflexivity. }
+      f_equal. unfold q, cn.
+      apply (grid_window sstep (start - off - range)); auto.
+      - unfold tk. nia.
+      - unfold tk. destruct n as [|n']; [lia|]. simpl Init.Nat.pred. nia.
+      - destruct (sub_start_spec start off range sstep Hsstep) as (q0 & H1 & H2). exists q0. auto.
+      - destruct (sub_start_spec (tk start interval k) off range sstep Hsstep) as (q0 & H1 & H2). exists q0. auto. }
+    rewrite Hwin.
+    match goal with |- context [apply_wf ?a ?b ?c ?d ?e ?f ?g] => destruct (apply_wf a b c d e f g) end; reflexivity.
   - (* zero-argument pointwise function *)
     simpl in Hprep. inversion Hprep; subst; clear Hprep. split; [reflexivity|]. split.
     + intros Hi t t'. simpl. apply safe_ok; auto.
@@ -837,7 +1027,7 @@ Proof.
       rewrite grid_tk, !combine_map, map_map. reflexivity.
 Qed.
 
-Theorem range_eq_instant_nosub : forall d e start interval n k,
+Theorem range_eq_instant : forall d e start interval n k,
   wf_data d -> okexpr e -> 0 < interval -> (k < n)%nat ->
   nth k (eval_range d (preprocess e) start interval n) [] =
   eval_instant d e (start + Z.of_nat k * interval).
